@@ -165,6 +165,7 @@ func newInterpreter(p *program, cfg config, solverKind string, timeoutMs int) (*
 		sizes:    p.sizes,
 		cfg:      cfg,
 		extCache: map[*ssa.Function]externalFn{},
+		fnSize:   map[*ssa.Function]int{},
 	}
 	i.rtypeMethods = p.rtypeM
 	i.errorMethods = p.errorM
@@ -246,6 +247,11 @@ func (i *interpreter) runJob(p *program, jb job) jobResult {
 		res.inconcl = append(res.inconcl, "harness not found: "+jb.harness)
 		return res
 	}
+	if !i.initWorld(p, pkg) {
+		res.inconcl = append(res.inconcl, i.path.endMsg)
+		res.st = i.st
+		return res
+	}
 	for len(i.work) > 0 {
 		if i.st.paths >= i.cfg.maxPaths {
 			res.inconcl = append(res.inconcl, fmt.Sprintf("path budget %d exhausted with %d prefixes pending", i.cfg.maxPaths, len(i.work)))
@@ -313,29 +319,61 @@ func (i *interpreter) pathSample() map[string]interface{} {
 	return m
 }
 
-func (i *interpreter) runPath(p *program, pkg *ssa.Package, fn *ssa.Function, prefix []decision) {
-	i.st.paths++
-	i.path = &pathState{prefix: prefix, nsym: map[string]int{}, covers: map[string]bool{}}
-	i.sch = &schedState{done: make(chan struct{}), maxPreempt: 2}
+// runThreads runs body as the main interpreted thread of the current path
+// until the path ends, then kills every remaining thread.
+func (i *interpreter) runThreads(body func()) {
+	var wg sync.WaitGroup
+	i.sch = &schedState{done: make(chan struct{}), maxPreempt: 2, wg: &wg}
+	main := i.spawnMain(body)
+	i.handoff(main)
+	<-i.sch.done
+	i.killAll()
+	wg.Wait()
+}
+
+// initWorld creates the globals and runs package initialisation once per
+// job; the resulting heap is the snapshot every path starts from.
+func (i *interpreter) initWorld(p *program, pkg *ssa.Package) bool {
+	i.logging = false
+	i.epoch = 0
+	i.undo, i.undoFns = nil, nil
+	i.path = &pathState{nsym: map[string]int{}, covers: map[string]bool{}}
 	i.tc = newTctx()
 	i.solver.push()
 	i.resetWorld(p, pkg)
+	i.runThreads(func() {
+		call(i, nil, token.NoPos, pkg.Func("init"), nil)
+	})
+	i.solver.pop()
+	ok := i.path.ended == "ok" && len(i.path.trace) == 0 && i.sch.crash == "" && i.sch.hang == ""
+	if !ok {
+		i.path.endMsg = fmt.Sprintf("package initialisation failed: %s %s %s %s", i.path.ended, i.path.endMsg, i.sch.crash, i.sch.hang)
+	}
+	i.snapSide = i.side
+	i.st.steps += i.path.steps
+	i.logging = true
+	return ok
+}
+
+func (i *interpreter) runPath(p *program, pkg *ssa.Package, fn *ssa.Function, prefix []decision) {
+	i.st.paths++
+	i.epoch++
+	i.path = &pathState{prefix: prefix, nsym: map[string]int{}, covers: map[string]bool{}}
+	i.tc = newTctx()
+	i.solver.push()
+	i.side = i.snapSide.clone()
+	i.world = &world{counters: map[string]int{}, poolMode: 1}
+	i.frozen = nil
+	i.allocLimit = nil
 
 	args := make([]value, len(i.job.args))
 	for k, a := range i.job.args {
 		args[k] = a
 	}
-	var wg sync.WaitGroup
-	i.sch.wg = &wg
-	main := i.spawnMain(func() {
-		// package initialisation, then the harness
-		call(i, nil, token.NoPos, pkg.Func("init"), nil)
+	i.runThreads(func() {
 		call(i, nil, token.NoPos, fn, []value{args})
 	})
-	i.handoff(main)
-	<-i.sch.done
-	i.killAll()
-	wg.Wait()
+	i.rollback()
 
 	// classify the outcome
 	st := &i.st
